@@ -277,7 +277,7 @@ func c01r2(c *core.Ctx) {
 			case *ast.ExprStmt:
 				if cl, ok := ast.Unparen(x.X).(*ast.CallExpr); ok {
 					if rv, ok := callTo(m, cl, tr.SetEntity); ok && rv != nil {
-						creations = append(creations, creation{cl, rv, m.ExprString(cl.Args[0]), m.ExprString(cl.Args[1])})
+						creations = append(creations, creation{cl, rv, m.ExprString(roleArg(tr.SetEntity, cl, "row")), m.ExprString(roleArg(tr.SetEntity, cl, "entity"))})
 					} else if rv, ok := callTo(m, cl, tr.Add); ok && rv != nil {
 						creations = append(creations, creation{cl, rv, "", m.ExprString(cl.Args[0])})
 					}
@@ -293,6 +293,36 @@ func c01r2(c *core.Ctx) {
 			}
 			ids := tableIDAlternatives(m, f, cr.T)
 			matches := func(n ast.Node) (bool, string) {
+				// the write may be delegated to a helper that performs it for its parameters on every path
+				if call, isCall := n.(*ast.CallExpr); isCall {
+					if k, cal, _ := m.Callee(call); k == core.CallStatic {
+						if ms := moveSummaryOf(c, cal); ms != nil && ms.index != nil {
+							iw := ms.index
+							if iw.e < len(call.Args) && iw.t < len(call.Args) && iw.r < len(call.Args) && m.ExprString(ast.Unparen(call.Args[iw.e])) == cr.entity {
+								row := m.ExprString(ast.Unparen(call.Args[iw.r]))
+								tab := m.ExprString(ast.Unparen(call.Args[iw.t]))
+								if iw.viaID {
+									tab = tableIDExpr(m, f, call.Args[iw.t])
+									if !ids[tab] {
+										for k2 := range tableIDAlternatives(m, f, call.Args[iw.t]) {
+											if ids[k2] {
+												tab = k2
+											}
+										}
+									}
+								}
+								if row != cr.rowVar {
+									return false, fmt.Sprintf("index written (by %s) with row %s, expected %s", cal.Name, row, cr.rowVar)
+								}
+								if !ids[tab] {
+									return false, fmt.Sprintf("index written (by %s) with table %s, expected the id of %s", cal.Name, tab, m.ExprString(cr.T))
+								}
+								return true, ""
+							}
+						}
+					}
+					return false, ""
+				}
 				as, ok := n.(*ast.AssignStmt)
 				if !ok {
 					return false, ""
@@ -322,10 +352,10 @@ func c01r2(c *core.Ctx) {
 					var tab, row string
 					for _, e := range lit.Elts {
 						if kv, ok := e.(*ast.KeyValueExpr); ok {
-							switch kv.Key.(*ast.Ident).Name {
-							case "table":
+							switch litFieldKey(m, kv) {
+							case "entityIndex.table":
 								tab = m.ExprString(kv.Value)
-							case "row":
+							case "entityIndex.row":
 								row = m.ExprString(kv.Value)
 							}
 						}
@@ -409,6 +439,175 @@ func c01r2(c *core.Ctx) {
 	}
 }
 
+// moveSummary describes the steps of the row-move protocol that a helper performs for its parameters, so that the
+// rules see through helpers (the same obligations, instantiated with the arguments at each call site).
+type moveSummary struct {
+	index *struct {
+		e, t, r int
+		viaID   bool
+	} // entities[P_e.id] = {table: P_t(.id), row: P_r} on every normal path
+	copy      *struct{ dst, dstRow, src, srcRow int }
+	copyCalls map[*ast.CallExpr]bool
+	remove    *struct{ t, row int } // P_t.Remove(P_row) on every normal path
+}
+
+var moveSummaryCache = map[*core.Func]*moveSummary{}
+
+func moveSummaryOf(c *core.Ctx, g *core.Func) *moveSummary {
+	if ms, ok := moveSummaryCache[g]; ok {
+		return ms
+	}
+	moveSummaryCache[g] = nil
+	m := c.M
+	tr := GetTableRoles(c)
+	if g == nil || g.Body == nil || g.Sig == nil || g.Recv == "table" || g.Recv == "column" {
+		return nil
+	}
+	par := func(e ast.Expr) int {
+		if e == nil {
+			return -1
+		}
+		id, ok := ast.Unparen(m.StripConv(e)).(*ast.Ident)
+		if !ok {
+			return -1
+		}
+		if v, ok := m.Info.ObjectOf(id).(*types.Var); ok {
+			if i, isP := paramIndexOf(g, v); isP {
+				return i
+			}
+		}
+		return -1
+	}
+	ms := &moveSummary{copyCalls: map[*ast.CallExpr]bool{}}
+	// index write
+	type iwT struct {
+		e, t, r int
+		viaID   bool
+	}
+	var iw *iwT
+	var iwNodes []ast.Node
+	consistent := true
+	core.InspectNoLits(g.Body, func(n ast.Node) bool {
+		as, ok := n.(*ast.AssignStmt)
+		if !ok {
+			return true
+		}
+		for i, l := range as.Lhs {
+			if i >= len(as.Rhs) {
+				continue
+			}
+			p := m.AccessPath(g, l)
+			if p.Last() != "storage.entities" {
+				continue
+			}
+			var lit *ast.CompositeLit
+			var entExpr ast.Expr
+			switch r := ast.Unparen(as.Rhs[i]).(type) {
+			case *ast.CompositeLit:
+				lit = r
+				if ix, ok := ast.Unparen(l).(*ast.IndexExpr); ok {
+					if sel, ok := m.StripConv(ix.Index).(*ast.SelectorExpr); ok {
+						entExpr = sel.X
+					}
+				}
+			case *ast.CallExpr:
+				if m.IsBuiltin(r, "append") && len(r.Args) == 2 {
+					lit, _ = ast.Unparen(r.Args[1]).(*ast.CompositeLit)
+				}
+			}
+			if lit == nil {
+				continue
+			}
+			cur := iwT{e: -1, t: -1, r: -1}
+			for _, e := range lit.Elts {
+				if kv, ok := e.(*ast.KeyValueExpr); ok {
+					switch litFieldKey(m, kv) {
+					case "entityIndex.table":
+						if pi := par(kv.Value); pi >= 0 {
+							cur.t = pi
+						} else if sel, ok := ast.Unparen(kv.Value).(*ast.SelectorExpr); ok && fieldKeyOf(m, sel) == "table.id" {
+							cur.t, cur.viaID = par(sel.X), true
+						}
+					case "entityIndex.row":
+						cur.r = par(kv.Value)
+					}
+				}
+			}
+			if entExpr != nil {
+				cur.e = par(entExpr)
+			}
+			if cur.t < 0 || cur.r < 0 {
+				continue
+			}
+			if iw == nil {
+				iw = &cur
+			} else {
+				if cur.e >= 0 && iw.e < 0 {
+					iw.e = cur.e
+				}
+				if cur.t != iw.t || cur.r != iw.r || cur.viaID != iw.viaID || (cur.e >= 0 && cur.e != iw.e) {
+					consistent = false
+				}
+			}
+			iwNodes = append(iwNodes, as)
+		}
+		return true
+	})
+	if iw != nil && consistent && iw.e >= 0 {
+		set := map[ast.Node]bool{}
+		for _, n := range iwNodes {
+			set[n] = true
+		}
+		if passedOnAllPaths(m, g, func(n ast.Node) bool { return set[n] }) {
+			ms.index = &struct {
+				e, t, r int
+				viaID   bool
+			}{iw.e, iw.t, iw.r, iw.viaID}
+		}
+	}
+	// copies between parameter tables at parameter rows; removal of a parameter row
+	core.InspectNoLits(g.Body, func(n ast.Node) bool {
+		cl, ok := n.(*ast.CallExpr)
+		if !ok {
+			return true
+		}
+		var dst, src, dstRow, srcRow ast.Expr
+		if rv, ok := callTo(m, cl, tr.Set); ok && rv != nil {
+			dst, dstRow, srcRow = rv, roleArg(tr.Set, cl, "dstRow"), roleArg(tr.Set, cl, "srcRow")
+			if cc, ok := ast.Unparen(roleArg(tr.Set, cl, "srcCol")).(*ast.CallExpr); ok {
+				if sel, ok := ast.Unparen(cc.Fun).(*ast.SelectorExpr); ok {
+					src = sel.X
+				}
+			}
+		} else if rv, ok := callTo(m, cl, tr.CopyAll); ok && rv != nil {
+			dst, src, dstRow, srcRow = rv, roleArg(tr.CopyAll, cl, "src"), roleArg(tr.CopyAll, cl, "dstRow"), roleArg(tr.CopyAll, cl, "srcRow")
+		}
+		if dst != nil {
+			a, b, x, y := par(dst), par(dstRow), par(src), par(srcRow)
+			if a >= 0 && b >= 0 && x >= 0 && y >= 0 {
+				if ms.copy == nil || (ms.copy.dst == a && ms.copy.dstRow == b && ms.copy.src == x && ms.copy.srcRow == y) {
+					ms.copy = &struct{ dst, dstRow, src, srcRow int }{a, b, x, y}
+					ms.copyCalls[cl] = true
+				}
+			}
+		}
+		if rv, ok := callTo(m, cl, tr.Remove); ok && rv != nil && len(cl.Args) == 1 {
+			if a, b := par(rv), par(cl.Args[0]); a >= 0 && b >= 0 {
+				call := cl
+				if passedOnAllPaths(m, g, func(n ast.Node) bool { return n == ast.Node(call) }) {
+					ms.remove = &struct{ t, row int }{a, b}
+				}
+			}
+		}
+		return true
+	})
+	if ms.index == nil && ms.copy == nil && ms.remove == nil {
+		return nil
+	}
+	moveSummaryCache[g] = ms
+	return ms
+}
+
 // c01r3: rows used by column copies.
 func c01r3(c *core.Ctx) {
 	m := c.M
@@ -438,9 +637,16 @@ func c01r3(c *core.Ctx) {
 				if rv, ok := callTo(m, cl, tr.Remove); ok && rv != nil {
 					removed[m.ExprString(rv)] = m.ExprString(cl.Args[0])
 				}
+				// removal delegated to a helper that removes the row of its table parameter
+				if k, cal, _ := m.Callee(cl); k == core.CallStatic {
+					if ms := moveSummaryOf(c, cal); ms != nil && ms.remove != nil && ms.remove.t < len(cl.Args) && ms.remove.row < len(cl.Args) {
+						removed[m.ExprString(ast.Unparen(cl.Args[ms.remove.t]))] = m.ExprString(ast.Unparen(cl.Args[ms.remove.row]))
+					}
+				}
 			}
 			return true
 		})
+		ownSummary := moveSummaryOf(c, f)
 		core.InspectNoLits(f.Body, func(n ast.Node) bool {
 			cl, ok := n.(*ast.CallExpr)
 			if !ok {
@@ -450,18 +656,31 @@ func c01r3(c *core.Ctx) {
 			var dstRow, srcRow ast.Expr
 			var compArg, colComp string
 			if rv, ok := callTo(m, cl, tr.Set); ok && rv != nil {
-				dst, dstRow, srcRow = rv, cl.Args[1], cl.Args[3]
-				compArg = m.ExprString(cl.Args[0])
+				dst, dstRow, srcRow = rv, roleArg(tr.Set, cl, "dstRow"), roleArg(tr.Set, cl, "srcRow")
+				compArg = m.ExprString(roleArg(tr.Set, cl, "comp"))
 				// source column: S.Column(id)
-				if cc, ok := ast.Unparen(cl.Args[2]).(*ast.CallExpr); ok {
+				if cc, ok := ast.Unparen(roleArg(tr.Set, cl, "srcCol")).(*ast.CallExpr); ok {
 					if sel, ok := ast.Unparen(cc.Fun).(*ast.SelectorExpr); ok && len(cc.Args) == 1 {
 						src = sel.X
 						colComp = m.ExprString(cc.Args[0])
 					}
 				}
 			} else if rv, ok := callTo(m, cl, tr.CopyAll); ok && rv != nil {
-				dst, src, dstRow, srcRow = rv, cl.Args[0], cl.Args[1], cl.Args[2]
+				dst, src, dstRow, srcRow = rv, roleArg(tr.CopyAll, cl, "src"), roleArg(tr.CopyAll, cl, "dstRow"), roleArg(tr.CopyAll, cl, "srcRow")
+			} else if k, cal, _ := m.Callee(cl); k == core.CallStatic && moveSummaryOf(c, cal) != nil && moveSummaryOf(c, cal).copy != nil {
+				// a helper that copies between the rows and tables it receives as parameters: the call is the copy
+				cp := moveSummaryOf(c, cal).copy
+				if cp.dst >= len(cl.Args) || cp.src >= len(cl.Args) || cp.dstRow >= len(cl.Args) || cp.srcRow >= len(cl.Args) {
+					return true
+				}
+				dst, src, dstRow, srcRow = cl.Args[cp.dst], cl.Args[cp.src], cl.Args[cp.dstRow], cl.Args[cp.srcRow]
 			} else {
+				return true
+			}
+			if ownSummary != nil && ownSummary.copy != nil && ownSummary.copyCalls[cl] {
+				// this function is itself such a helper: tables and rows are its parameters, the obligations are
+				// checked where it is called
+				c.Info("C01/R3", fmt.Sprintf("%s: %s", f.Name, m.ExprString(cl)), c.At(cl.Pos()), "copy between parameter tables/rows; checked at the call sites of "+f.Name)
 				return true
 			}
 			subject := fmt.Sprintf("%s: %s", f.Name, m.ExprString(cl))
@@ -536,7 +755,7 @@ func c01r4(c *core.Ctx) {
 			if dst == nil {
 				return true
 			}
-			src := cl.Args[0]
+			src := roleArg(role, cl, "src")
 			D, S := m.ExprString(dst), m.ExprString(src)
 			subject := fmt.Sprintf("%s: %s.%s(%s)", f.Name, D, role.Obj.Name(), S)
 			var problems []string
@@ -818,6 +1037,30 @@ var bufferPairs = map[string][2]string{
 	"entityPool":   {"entities", "pointer"},
 }
 
+// litFieldKey returns the canonical key of the field named by the key of a composite-literal element
+// (renamed fields resolve to their pinned key).
+func litFieldKey(m *core.Model, kv *ast.KeyValueExpr) string {
+	id, ok := kv.Key.(*ast.Ident)
+	if !ok {
+		return ""
+	}
+	if v, ok := m.Info.ObjectOf(id).(*types.Var); ok && v.IsField() {
+		return m.FieldKey(v.Origin())
+	}
+	return ""
+}
+
+// actualFieldName returns the name the field with the canonical key has in the analysed source.
+func actualFieldName(m *core.Model, key string) string {
+	if v := m.FieldByKey(key); v != nil {
+		return v.Name()
+	}
+	if i := strings.LastIndexByte(key, '.'); i >= 0 {
+		return key[i+1:]
+	}
+	return key
+}
+
 // c01r6: derived raw pointers are refreshed after the buffer may have been reallocated.
 func c01r6(c *core.Ctx) {
 	m := c.M
@@ -895,7 +1138,7 @@ func c01r6(c *core.Ctx) {
 							if f2 := m.FieldOf(s2); f2 == nil || m.FieldKey(f2) != ptrKey || m.ExprString(s2.X) != base {
 								continue
 							}
-							if derivedFrom(m, f, as.Rhs[j], base+"."+bp[0], 0) {
+							if derivedFrom(m, f, as.Rhs[j], base+"."+actualFieldName(m, owner+"."+bp[0]), 0) {
 								return true
 							}
 							return pairedBuffer(m, f, l, as.Rhs[j])
@@ -917,13 +1160,11 @@ func c01r6(c *core.Ctx) {
 				var bufV, ptrV ast.Expr
 				for _, e := range x.Elts {
 					if kv, ok := e.(*ast.KeyValueExpr); ok {
-						if id, ok := kv.Key.(*ast.Ident); ok {
-							if id.Name == bp[0] {
-								bufV = kv.Value
-							}
-							if id.Name == bp[1] {
-								ptrV = kv.Value
-							}
+						switch litFieldKey(m, kv) {
+						case owner + "." + bp[0]:
+							bufV = kv.Value
+						case owner + "." + bp[1]:
+							ptrV = kv.Value
 						}
 					}
 				}
@@ -944,7 +1185,7 @@ func c01r6(c *core.Ctx) {
 							for j, l2 := range as.Lhs {
 								if s2, ok := ast.Unparen(l2).(*ast.SelectorExpr); ok && j < len(as.Rhs) {
 									if f2 := m.FieldOf(s2); f2 != nil && m.FieldKey(f2) == owner+"."+bp[1] {
-										if derivedFrom(m, f, as.Rhs[j], m.ExprString(s2.X)+"."+bp[0], 0) {
+										if derivedFrom(m, f, as.Rhs[j], m.ExprString(s2.X)+"."+actualFieldName(m, owner+"."+bp[0]), 0) {
 											okAfter = true
 										}
 									}
@@ -1012,6 +1253,63 @@ func followedOnAllPaths(m *core.Model, f *core.Func, from ast.Node, pred func(as
 	})
 	for _, b := range g.Blocks {
 		if fr.Reached[b] && m.IsReturnExit(b) && fr.Out[b] {
+			return false
+		}
+	}
+	return true
+}
+
+// passedOnAllPaths: every normal path from the entry of f to a return passes a node satisfying pred.
+func passedOnAllPaths(m *core.Model, f *core.Func, pred func(ast.Node) bool) bool {
+	g := m.CFG(f)
+	if g == nil || len(g.Blocks) == 0 {
+		return false
+	}
+	fr := core.Forward(g, core.Flow[bool]{
+		Entry: true, // true: pred not yet passed
+		Join:  func(a, b bool) bool { return a || b },
+		Equal: func(a, b bool) bool { return a == b },
+		Node: func(s bool, _ *cfg.Block, n ast.Node) bool {
+			core.WalkEval(n, func(x ast.Node, cond bool) {
+				if s && !cond && pred(x) {
+					s = false
+				}
+			})
+			return s
+		},
+	})
+	for _, b := range g.Blocks {
+		if fr.Reached[b] && m.IsReturnExit(b) && fr.Out[b] {
+			return false
+		}
+	}
+	return true
+}
+
+// passedOnAllPathsExcept is passedOnAllPaths with a set of return statements that are allowed to be reached without pred.
+func passedOnAllPathsExcept(m *core.Model, f *core.Func, pred func(ast.Node) bool, exempt map[*ast.ReturnStmt]bool) bool {
+	g := m.CFG(f)
+	if g == nil || len(g.Blocks) == 0 {
+		return false
+	}
+	fr := core.Forward(g, core.Flow[bool]{
+		Entry: true,
+		Join:  func(a, b bool) bool { return a || b },
+		Equal: func(a, b bool) bool { return a == b },
+		Node: func(s bool, _ *cfg.Block, n ast.Node) bool {
+			core.WalkEval(n, func(x ast.Node, cond bool) {
+				if s && !cond && pred(x) {
+					s = false
+				}
+			})
+			return s
+		},
+	})
+	for _, b := range g.Blocks {
+		if fr.Reached[b] && m.IsReturnExit(b) && fr.Out[b] {
+			if r := b.Return(); r != nil && exempt[r] {
+				continue
+			}
 			return false
 		}
 	}
